@@ -13,6 +13,7 @@ package parser
 import (
 	"fmt"
 	"runtime"
+	"sort"
 	"strings"
 	"sync"
 	"sync/atomic"
@@ -205,6 +206,50 @@ func (w *c06Worker) tree(t *selgen.Node, styles []selgen.Style, edits bool, full
 	}
 }
 
+// multiset compares a set literal written with repeats / in any order against the same set written
+// once per value in ascending order: same canonical text, same UniqueID.
+func (w *c06Worker) multiset(leaf *selgen.Node) {
+	uniq := map[string]bool{}
+	var ded []string
+	for _, v := range leaf.Set {
+		if !uniq[v] {
+			uniq[v] = true
+			ded = append(ded, v)
+		}
+	}
+	sort.Strings(ded)
+	a := leaf.Render(selgen.Canonicalish)
+	b := (&selgen.Node{Kind: leaf.Kind, Label: leaf.Label, Set: ded}).Render(selgen.Canonicalish)
+	if a == b {
+		return
+	}
+	sa, ea := w.p.Parse(a)
+	sb, eb := w.p2.Parse(b)
+	w.calls += 2
+	if ea != nil || eb != nil {
+		return // reported by check()
+	}
+	if sa.String() != sb.String() || sa.UniqueID() != sb.UniqueID() {
+		cls := "reordered"
+		if len(ded) < len(leaf.Set) {
+			cls = fmt.Sprintf("repeat-x%d", c06MaxMult(leaf.Set))
+		}
+		w.c.Violation("C06:set-literal-identity:"+cls, map[string]any{"input": a, "same_set_written_once": b,
+			"canonical": sa.String(), "canonical_of_deduplicated": sb.String(), "uid": sa.UniqueID(), "uid_of_deduplicated": sb.UniqueID()})
+	}
+}
+
+func c06MaxMult(vs []string) int {
+	m, best := map[string]int{}, 0
+	for _, v := range vs {
+		m[v]++
+		if m[v] > best {
+			best = m[v]
+		}
+	}
+	return best
+}
+
 func c06Run(c *vk.Ctx, workers int, jobs func(emit func(func(w *c06Worker)))) {
 	ch := make(chan func(w *c06Worker), 256)
 	var wg sync.WaitGroup
@@ -277,6 +322,7 @@ func TestVerif_C06(t *testing.T) {
 	vk.Run(t, "C06", func(c *vk.Ctx) {
 		c.Rule("states = distinct input strings: every selector AST with up to k leaves (k=2 quick, k=3 thorough) over the full grammar " +
 			"(== != contains, starts with, ends with, in, not in, has(), all(), global(), !, !!, &&, ||, nesting; labels a/in/has; values x, empty, y'z, q\"r; set sizes 0-2) " +
+			"plus in / not in set literals written as every sequence of length 0-5 over three values (all multiplicities and orders), " +
 			"rendered in several surface styles (both quote styles, spacing none/single/tabs, notin / not in / not  in, redundant or minimal parentheses, !!x vs !(!x)), " +
 			"plus every single-token deletion/insertion/substitution of the plain rendering (near-miss inputs; for k=3 of the flat three-operand groups only); " +
 			"transitions = calls into the real parser/selector (Parse, Validate, String+re-Parse, Evaluate per label map over values {absent,'',x,xy,yx,q\"r,y'z}); " +
@@ -353,6 +399,25 @@ func TestVerif_C06(t *testing.T) {
 					}
 					w.useGlobal = false
 				})
+			}
+			// set literals as multisets: every sequence of length 0..5 over three values (so every
+			// multiplicity up to 5 in every order) for in / not in; besides the general oracle the
+			// canonical text and UniqueID must equal those of the de-duplicated set
+			mvals := []string{"x", "y", `q"r`}
+			mseqs := selgen.SetsUpTo(mvals, 5)
+			c.Extra("multiset_literals", len(mseqs))
+			for _, kind := range []selgen.Kind{selgen.In, selgen.NotIn} {
+				for _, label := range []string{"a", "in"} {
+					emit(func(w *c06Worker) {
+						for _, seq := range mseqs {
+							leaf := &selgen.Node{Kind: kind, Label: label, Set: seq}
+							for _, top := range selgen.Tops(leaf)[:2] {
+								w.tree(top, four, len(seq) <= 3, true)
+							}
+							w.multiset(leaf)
+						}
+					})
+				}
 			}
 			// k = 2
 			g2 := selgen.Groups2(compact2)
